@@ -50,14 +50,26 @@ type breaker interface {
 }
 
 // ---- health
-type healthB struct{ cb *health.CircuitBreaker }
+// the breaker keys its state by the endpoint's health-check URL as configured: plain, with a query string (an
+// absolute health_check_url such as http://gpu-box:8000/health?deep=1 is used verbatim), with a fragment, escaped
+type healthB struct {
+	cb  *health.CircuitBreaker
+	url string
+}
 
-func (b healthB) Fail()                { b.cb.RecordFailure(hurl) }
-func (b healthB) Succ()                { b.cb.RecordSuccess(hurl) }
-func (b healthB) Ask() bool            { return !b.cb.IsOpen(hurl) }
-func (b healthB) Tick(d time.Duration) { health.VerifRewind(b.cb, hurl, d) }
+var hurls = []string{hurl, "http://verif.invalid:8000/health?deep=1&token=abc", "http://verif.invalid/health#ready", "http://verif.invalid/he%20alth?x=1#y", "http://[::1]:9/health?a=b"}
+var hurlN uint32
+
+func newHealthB() healthB {
+	return healthB{health.NewCircuitBreaker(), hurls[int(atomic.AddUint32(&hurlN, 1))%len(hurls)]}
+}
+
+func (b healthB) Fail()                { b.cb.RecordFailure(b.url) }
+func (b healthB) Succ()                { b.cb.RecordSuccess(b.url) }
+func (b healthB) Ask() bool            { return !b.cb.IsOpen(b.url) }
+func (b healthB) Tick(d time.Duration) { health.VerifRewind(b.cb, b.url, d) }
 func (b healthB) Obs() (int, int, int, int) {
-	f, _, la, open, _ := health.VerifPeek(b.cb, hurl)
+	f, _, la, open, _ := health.VerifPeek(b.cb, b.url)
 	x := 0
 	if la != 0 {
 		x = 1
@@ -164,7 +176,7 @@ func kinds() []kind {
 	_, hto := health.VerifBreakerConfig(health.NewCircuitBreaker())
 	ucfg := unifier.DefaultConfig().CircuitBreaker
 	return []kind{
-		{"health", func() breaker { return healthB{health.NewCircuitBreaker()} }, hto},
+		{"health", func() breaker { return newHealthB() }, hto},
 		{"engine", func() breaker { return engineB{olla.VerifNewEngineBreaker("e")} }, health.DefaultCircuitBreakerTimeout},
 		{"unifier", func() breaker { return unifierB{unifier.NewCircuitBreaker(ucfg)} }, ucfg.OpenDuration},
 	}
